@@ -92,11 +92,24 @@ def _wire_check(chk, pid, rule):
                         "32-bit fields are covered at boundary values, not exhaustively; text in these vectors is ASCII (code pages: C10-C12)"]
 
 
+def text_frames(chk, pid):
+    """Every text-bearing packet with ASCII / Latin-1 / Cyrillic / double-byte / switching / caret-trail texts of every length, in both
+    size modes: Trace_Text.TFrame (frame laws; a text that fits comes back unchanged and re-encodes to the same frame)."""
+    tp = os.path.join(WORK, f"{pid}_fields.ndjson")
+    out = harness(["text-fields", "--out", tp, "--tier", chk.tier])
+    chk.extra["text_frames"] = json.loads(out.strip().splitlines()[-1])
+    text_trace_validate(chk, f"{pid}_fields", tp, "frame of a text-bearing packet", only={"Frame", "Panic"})
+
+
 def check_C01(chk):
     _wire_check(chk, "C01", "TLC walks the LfsWire table: per kind a base record with distinct recognisable values plus one-field-at-a-time "
                 "sweeps (every enumerant, every single flag bit / none / all, boundary integers, all 16 nibble values, text lengths, element "
                 "counts), both size modes. Each record is built as a real Packet, encoded, decoded and re-encoded; the decoded record must "
-                "equal the original and the bytes must be stable; a packet the specification can represent must not be refused.")
+                "equal the original and the bytes must be stable; a packet the specification can represent must not be refused. "
+                "Text that is not ASCII (Latin-1, Cyrillic, double-byte, a code page switch at every character, double-byte characters whose trail "
+                "byte is a caret followed by code page letters) is carried through every text field of every kind: a text that fits its field "
+                "must come back unchanged and re-encode to the same frame (Frame events, Trace_Text.TFrame).")
+    text_frames(chk, "c01")
 
 
 def check_C02(chk):
@@ -116,10 +129,7 @@ def check_C03(chk):
                 "be one well-formed frame equal to SpecEncode; where the specification says `refused` it must fail; a decoded packet must re-encode. "
                 "In addition every text-bearing packet is encoded in both size modes with ASCII / Latin-1 / Cyrillic / double-byte / mixed texts of "
                 "every encoded length 0..N+2 (thorough 0..2N): Trace_Text.TFrame requires one well-formed frame that decodes whole as the same kind.")
-    tp = os.path.join(WORK, "c03_fields.ndjson")
-    out = harness(["text-fields", "--out", tp, "--tier", chk.tier])
-    chk.extra["text_frames"] = json.loads(out.strip().splitlines()[-1])
-    text_trace_validate(chk, "c03_fields", tp, "frame of a text-bearing packet", only={"Frame", "Panic"})
+    text_frames(chk, "c03")
 
 
 def check_C04(chk):
@@ -318,6 +328,36 @@ def check_C17(chk):
     chk.assumptions += ["allocation is bounded by measurement (counting global allocator), not by proof; 'one more than present' counts are only placed where the over-read must hit the end of the file"]
 
 
+def builder_gate(chk):
+    """C09 through the Builder: LfsBuilder carries the gate setting (verify_version, on by default); for every emitted setter
+    sequence the connection returned by connect_blocking / connect_async over TCP and UDP is sent an IS_VER of version 8."""
+    cfg = write_cfg("c09_builder", "Spec", {"MaxCalls": "= 2", "Emit": "= TRUE"}, invariants=["TypeOK", "HandshakeOk", "EmitInv"])
+    r = tlc("LfsBuilder", cfg, "c09_builder", workers=1, timeout=1500, coverage=False, env={"JAVA_TOOL_OPTIONS": "-Xss1g"})
+    if r.violated:
+        raise ToolError(f"LfsBuilder violates {r.violated}")
+    nd = os.path.join(WORK, "c09_builder.ndjson")
+    n = extract_emitted(r.out_path, nd, tag="BUILD")
+    chk.add_tlc("c09_builder", r)
+    outp = nd + ".replay.out"
+    harness(["builder-replay", "--in", nd, "--connect-stride", "5" if chk.tier == "quick" else "1", "--gate", "1", "--handshake", "0"], stdout_path=outp, timeout=3000)
+    summary = None
+    with open(outp) as f:
+        for line in f:
+            v = json.loads(line)
+            if "summary" in v:
+                summary = v["summary"]
+            elif "mismatch" in v:
+                cs = v["case"]
+                mine = "; ".join(p for p in v["mismatch"].split("; ") if p.startswith("gate:"))
+                if mine:
+                    chk.violation("builder-gate:" + norm_key(mine), mine, {"kind": "builder-case", "case": cs})
+    if summary is None:
+        raise ToolError("builder-replay printed no summary")
+    chk.traces += summary["connects"]
+    chk.extra["builder_gate"] = summary
+    log(f"[builder-gate] {n} setter sequences, {summary}")
+
+
 def check_C18(chk):
     """The handshake carries exactly the configured connection options."""
     thorough = chk.tier == "thorough"
@@ -354,8 +394,12 @@ def check_C18(chk):
                     summary = v["summary"]
                 elif "mismatch" in v:
                     cs = v["case"]
-                    sig = f"{cs['proto']}:local={cs['local']}:" + norm_key(v["mismatch"])
-                    chk.violation("builder:" + sig, v["mismatch"], {"kind": "builder-case", "case": cs})
+                    # the version gate of the returned connection is C09's business (see builder_gate)
+                    mine = "; ".join(p for p in v["mismatch"].split("; ") if not p.startswith("gate:"))
+                    if not mine:
+                        continue
+                    sig = f"{cs['proto']}:local={cs['local']}:" + norm_key(mine)
+                    chk.violation("builder:" + sig, mine, {"kind": "builder-case", "case": cs})
         if summary is None:
             raise ToolError("builder-replay printed no summary")
         chk.traces += summary["behaviours"]
